@@ -129,6 +129,17 @@ def op_run(req):
     return enc(p.run(**req.get("run", {})))
 
 
+def op_run_seq(req):
+    """several run() calls in THIS process, in order; each outcome separately"""
+    outs = []
+    for ddl in req["ddls"]:
+        try:
+            outs.append({"ok": enc(DDLParser(ddl, **req.get("ctor", {})).run(**req.get("run", {})))})
+        except Exception as e:  # noqa
+            outs.append({"raise": type(e).__name__, "msg": str(e)[:200]})
+    return outs
+
+
 def op_statements(req):
     """the statements handed to the grammar, in order, plus comments"""
     stmts = []
